@@ -28,11 +28,29 @@ fn is_table(k: LuaSyntaxKind) -> bool {
     matches!(k, LuaSyntaxKind::TableArrayExpr | LuaSyntaxKind::TableObjectExpr | LuaSyntaxKind::TableEmptyExpr)
 }
 
+/// value-preserving canonical form of a short string under a quote-style rewrite: escape sequences are kept
+/// as written except that an escaped quote character counts as the bare quote character
 fn string_value(text: &str) -> Option<String> {
     let b = text.as_bytes();
     if b.len() >= 2 && (b[0] == b'"' || b[0] == b'\'') && b[b.len() - 1] == b[0] {
-        let inner = &text[1..text.len() - 1];
-        Some(format!("S:{}", inner.replace("\\\"", "\"").replace("\\'", "'")))
+        let inner: Vec<char> = text[1..text.len() - 1].chars().collect();
+        let mut out = String::from("S:");
+        let mut i = 0;
+        while i < inner.len() {
+            if inner[i] == '\\' && i + 1 < inner.len() {
+                if inner[i + 1] == '"' || inner[i + 1] == '\'' {
+                    out.push(inner[i + 1]);
+                } else {
+                    out.push(inner[i]);
+                    out.push(inner[i + 1]);
+                }
+                i += 2;
+            } else {
+                out.push(inner[i]);
+                i += 1;
+            }
+        }
+        Some(out)
     } else {
         None
     }
@@ -118,10 +136,12 @@ pub fn parse(text: &str, level: LuaLanguageLevel, cfg: &LuaFormatConfig) -> Opti
         }
         out.push(t.clone());
     }
-    // doc structure: one flat sequence of node kinds over all comments (without the comment roots)
+    // doc structure: one flat sequence of node kinds over all comments (without the comment roots and without
+    // description nodes: merging two comment blocks, e.g. with max_blank_lines = 0, merges descriptions; their
+    // text is compared by the token sequence)
     let flat: Vec<String> = shapes
         .iter()
-        .flat_map(|s| s.split(',').filter(|k| *k != "Comment" && !k.is_empty()).map(|k| k.to_string()).collect::<Vec<_>>())
+        .flat_map(|s| s.split(',').filter(|k| *k != "Comment" && *k != "DocDescription" && !k.is_empty()).map(|k| k.to_string()).collect::<Vec<_>>())
         .collect();
     let mut merged: Vec<String> = Vec::with_capacity(out.len());
     let mut last_comment = false;
